@@ -99,12 +99,16 @@ Reset(s) ==
   /\ notified' = [t \in {"P", "C"} |-> FALSE]
   /\ readOK' = TRUE /\ lateFalse' = 0 /\ started' = FALSE
 
+(* No lost wakeups: before every step the threads that have a notification  *)
+(* on offer in the implementation are exactly those the model has notified. *)
+NotifiedAgree(s) ==
+  ("nf" \in DOMAIN s) => {t \in {"P", "C"} : notified[t]} = {s.nf[i] : i \in 1 .. Len(s.nf)}
 TraceNext ==
   /\ l <= Len(Rec)
   /\ LET s == Rec[l] IN
        \/ Reset(s)
-       \/ s.t = "P" /\ PStep(s)
-       \/ s.t = "C" /\ CStep(s)
+       \/ s.t = "P" /\ NotifiedAgree(s) /\ PStep(s)
+       \/ s.t = "C" /\ NotifiedAgree(s) /\ CStep(s)
   /\ l' = l + 1
 
 TraceSpec == TraceInit /\ [][TraceNext]_tvars
